@@ -219,7 +219,7 @@ fn cycle_family() -> Vec<String> {
                 }
                 for entry in 0..3 {
                     let extra = match entry {
-                        0 => String::new(),
+                        0 => format!("aw {} ::= 5\nav {} ::= aw\nzw INTEGER ::= 5\nZs ::= SEQUENCE {{ f {} DEFAULT zw }}\n", names[0], names[0], names[len - 1]),
                         1 => format!("Aa ::= SEQUENCE {{ e BOOLEAN, COMPONENTS OF {} }}\naav {} ::= {{ }}\n", names[0], names[0]),
                         _ => format!("Zz ::= SEQUENCE {{ e BOOLEAN, COMPONENTS OF {} }}\nZl ::= SEQUENCE OF {}\nzzv {} ::= 3\n", names[0], names[len - 1], names[0]),
                     };
@@ -249,7 +249,7 @@ fn cycle_family() -> Vec<String> {
             for i in 0..len {
                 body.push_str(&format!("{} C1 ::= {{ o1 | {} }}\n", sn[i], sn[(i + 1) % len]));
             }
-            for user in ["", "Aa ::= SEQUENCE { id C1.&id ({@S}), v C1.&Type ({@S}{@id}) }", "Zz ::= SEQUENCE { id C1.&id ({@S}), v C1.&Type ({@S}{@id}) }"] {
+            for user in ["", "Aa ::= SEQUENCE { id C1.&id ({@S}), v C1.&Type ({@S}{@id}) }", "Zz ::= SEQUENCE { id C1.&id ({@S}), v C1.&Type ({@S}{@id}) }", "Zset C1 ::= { @S }", "Aset C1 ::= { o1 | @S }"] {
                 out.push(format!("Cyc-Mod DEFINITIONS AUTOMATIC TAGS ::= BEGIN\n{body}{}\nEND\n", user.replace("@S", &sn[0])));
             }
             // parameterized templates
@@ -323,6 +323,21 @@ pub fn gen_inputs(cfg: &RunCfg) -> Vec<(String, String)> {
         "An ::= ANY",
         "In ::= INTEGER { a(1), b(a) }",
         "Deep ::= SEQUENCE OF SEQUENCE OF SET OF CHOICE { x SEQUENCE { y SET { z ENUMERATED { q } } } }",
+        // degenerate forms of accepted notation: a group of COMPONENTS OF only, empty strings as range ends,
+        // numbers at the edge of i128, empty lists
+        "Gb ::= SEQUENCE { b BOOLEAN }\nGa ::= SEQUENCE { a INTEGER, ..., [[ COMPONENTS OF Gb ]] }",
+        "Gc ::= SEQUENCE { a INTEGER, ..., [[ ]] }",
+        "Fe ::= IA5String (FROM (\"\"..\"z\"))",
+        "Ff ::= IA5String (\"\"..\"z\")",
+        "Fg ::= IA5String (FROM (\"a\"..\"\"))",
+        "Fh ::= PrintableString (FROM (\"\"))",
+        "Em ::= ENUMERATED { a, ..., b(170141183460469231731687303715884105727), c }",
+        "En ::= ENUMERATED { a(170141183460469231731687303715884105727), b }",
+        "Eo ::= ENUMERATED { a(-170141183460469231731687303715884105728), b, ..., c }",
+        "Im ::= INTEGER { top(170141183460469231731687303715884105727) } (0..top)",
+        "Sz ::= OCTET STRING (SIZE (0..170141183460469231731687303715884105727))",
+        "Bz ::= BIT STRING { far(170141183460469231731687303715884105727) }",
+        "Tz ::= [170141183460469231731687303715884105727] INTEGER",
     ];
     for l in lines.iter().skip(2).filter(|l| !l.starts_with("END")).map(|l| l.to_string()).chain(extra.iter().map(|x| x.to_string())) {
         for hdr in ["AUTOMATIC TAGS", "", "EXPLICIT TAGS EXTENSIBILITY IMPLIED"] {
